@@ -52,6 +52,8 @@ def kref_call(c):
                 return None
             d["dir2"], d["name2"] = "/".join(sp2["dir"]), sp2["name"]
     elif o == "create_file":
+        if op["opath"]:
+            return None     # refused by the library before any syscall (O_PATH makes O_CREAT a no-op)
         d.update(sys="creat", oflags=cf_flags(op), mode=0o640)
     elif o == "remove_file":
         d["sys"] = "unlink"
